@@ -191,7 +191,25 @@ class Catalogue:
                     q2 = _insert(q, b.end(), f" ...{a.group(1)} ")          # later definition first: offsets of the earlier stay valid
                     q2 = _insert(q2, a.end(), f" ...{b.group(1)} ")
                     res.append(q2)
-        return self.r.sample(res, min(5, len(res)))
+        res = self.r.sample(res, min(5, len(res)))
+        # cycles among fragments NO operation reaches (only the cycle rule can refuse these: the fragments spread each other),
+        # closed directly, through an inline fragment (with / without condition, with a directive) or below a field
+        comp = [(t["name"], f["name"], base(f["type"])) for t in self.sg.types if t["kind"] == "object"
+                for f in t["fields"] if base(f["type"]) in self.sg.obj_names and not any(is_nn(a["type"]) and not a.get("default") for a in f["args"])]
+        tn = self.r.choice(self.sg.obj_names + ["Query"])
+        lone = [f"fragment Zc on {tn} {{ __typename ...Zc }}",
+                f"fragment Zc on {tn} {{ __typename ... on {tn} {{ ...Zc }} }}",
+                f"fragment Zc on {tn} {{ __typename ... {{ ...Zc }} }}",
+                f"fragment Zc on {tn} {{ __typename ... @include(if: true) {{ ... on {tn} {{ ...Zc }} }} }}",
+                f"fragment Za on {tn} {{ __typename ... on {tn} {{ ...Zb }} }} fragment Zb on {tn} {{ ...Za }}",
+                f"fragment Za on {tn} {{ ...Zb }} fragment Zb on {tn} {{ __typename ... {{ ...Zc }} }} fragment Zc on {tn} {{ ... on {tn} {{ ...Za }} }}"]
+        rec = [c for c in comp if c[0] == c[2]]
+        if rec:
+            a, fld, _ = self.r.choice(rec)
+            lone.append(f"fragment Zc on {a} {{ {fld} {{ __typename ... on {a} {{ ...Zc }} }} }}")
+            lone.append(f"fragment Zc on {a} {{ {fld} {{ {fld} {{ ... {{ ...Zd }} }} }} }} fragment Zd on {a} {{ {fld} {{ ...Zc }} }}")
+        for fr_ in self.r.sample(lone, 3): res.append(q.rstrip() + "\n" + fr_ + "\n")
+        return res
     def m_spread_impossible(self, q):
         res = []
         objs = self.sg.obj_names
